@@ -103,3 +103,84 @@ Example C09_accepted_chain_example :
   parse_json_path (show_json_path (fun _ => []) ps) = Ok ps.
 Proof. vm_compute. repeat split; reflexivity. Qed.
 Print Assumptions C09_accepted_chain_example.
+
+(* ---- the documented language as a grammar (PathGrammar.v, written from README.md / path.rs / the golden tests / the
+   property text): every text of the grammar is accepted and yields the structure the grammar gives it, whatever the
+   spacing, the letter case of `last` / `to`, and whether names are bare or quoted.  jp_rooted_text = paths starting with
+   `$` and standalone predicates; the ordered choices of the parser never commit to a wrong alternative on them. *)
+From JB Require Import JsonGrammar KeyPathGrammar PathGrammar PathGrammarProofs.
+
+Theorem C09_every_documented_path_is_accepted_as_intended :
+  forall t ps, jp_rooted_text t ps -> parse_json_path t = Ok ps.
+Proof. exact rooted_complete. Qed.
+Print Assumptions C09_every_documented_path_is_accepted_as_intended.
+
+(* the Snowflake-style forms without the leading `$` (jp_unrooted_text): proved for every text that, after its leading
+   spacing, does not start like an expression (a digit, one of the letters n t f N i I e, or a point followed by a
+   digit).  The restriction is not an artefact: a text is tried as a predicate first, and
+   C09_unrooted_forms_read_as_expressions below shows unrooted paths of the grammar that are rejected or read as a
+   predicate.  The full statement (without the second hypothesis) is false. *)
+Theorem C09_unrooted_paths_are_accepted_as_intended_partial :
+  forall t ps, jp_unrooted_text t ps -> ~ starts_like_an_expression (multispace0 t) -> parse_json_path t = Ok ps.
+Proof. exact unrooted_complete_partial. Qed.
+Print Assumptions C09_unrooted_paths_are_accepted_as_intended_partial.
+
+(* the pieces, usable on their own: expressions at the three levels, steps with filters *)
+Theorem C09_expressions_and_steps_are_read_as_intended :
+  (forall c t e, or_text c t e -> P_or c t e) /\ (forall ts ps, fsteps_text ts ps -> spaced P_fstep ts ps).
+Proof. split; [exact or_text_complete|exact fsteps_text_complete]. Qed.
+Print Assumptions C09_expressions_and_steps_are_read_as_intended.
+
+(* the grammar is not vacuous: `$.a` is in it *)
+Example C09_grammar_instance : jp_rooted_text [36; 46; 97] [PRoot; PDotField [97]].
+Proof.
+  apply (JP_path [] [46; 97] [PDotField [97]] []); [constructor| |constructor].
+  apply (FSS_cons [] [46; 97] (PDotField [97]) [] []); [constructor| |constructor].
+  apply FS_step. apply ST_dot_name. apply Bare; [discriminate| |reflexivity].
+  apply NB_char; [|constructor]. split; [|discriminate]. unfold name_delimiter. cbn. intuition discriminate.
+Qed.
+
+(* one path in three spellings: $.a[last - 1]   $."a"[LAST-1]   ` $ .a [ last  -  1 ] ` *)
+Example C09_three_spellings_one_structure :
+  let ps := [PRoot; PDotField [97]; PIndices [AIndex (ILast (-1))]] in
+  parse_json_path [36; 46; 97; 91; 108; 97; 115; 116; 32; 45; 32; 49; 93] = Ok ps /\
+  parse_json_path [36; 46; 34; 97; 34; 91; 76; 65; 83; 84; 45; 49; 93] = Ok ps /\
+  parse_json_path [32; 36; 32; 46; 97; 32; 91; 32; 108; 97; 115; 116; 32; 32; 45; 32; 32; 49; 32; 93; 32] = Ok ps.
+Proof. vm_compute. repeat split; reflexivity. Qed.
+
+(* $.a > 1 || $.b > 2 && $.c > 3  is  a || (b && c) *)
+Example C09_and_binds_tighter_than_or :
+  parse_json_path [36; 46; 97; 32; 62; 32; 49; 32; 124; 124; 32; 36; 46; 98; 32; 62; 32; 50; 32; 38; 38; 32; 36; 46; 99; 32; 62; 32; 51]
+  = Ok [PPredicate (EBin OOr (EBin OGt (EPaths [PRoot; PDotField [97]]) (EValue (PVNum (NUInt 1))))
+                             (EBin OAnd (EBin OGt (EPaths [PRoot; PDotField [98]]) (EValue (PVNum (NUInt 2))))
+                                        (EBin OGt (EPaths [PRoot; PDotField [99]]) (EValue (PVNum (NUInt 3))))))].
+Proof. vm_compute. reflexivity. Qed.
+
+(* literals: $?(@.a == 1.5e3 && @.b != "")  — an exponent number (1500.0 = 0x4097700000000000) and the empty string;
+   $.a == -1 — a negative number on the right *)
+Example C09_literals :
+  parse_json_path [36; 63; 40; 64; 46; 97; 32; 61; 61; 32; 49; 46; 53; 101; 51; 32; 38; 38; 32; 64; 46; 98; 32; 33; 61; 32; 34; 34; 41]
+  = Ok [PRoot; PFilter (EBin OAnd (EBin OEq (EPaths [PCurrent; PDotField [97]]) (EValue (PVNum (NFloat 4654311885213007872))))
+                                  (EBin ONe (EPaths [PCurrent; PDotField [98]]) (EValue (PVStr []))))] /\
+  parse_json_path [36; 46; 97; 32; 61; 61; 32; 45; 49]
+  = Ok [PPredicate (EBin OEq (EPaths [PRoot; PDotField [97]]) (EValue (PVNum (NInt (-1)))))].
+Proof. vm_compute. split; reflexivity. Qed.
+
+(* unrooted paths of the grammar that the parser does not read as paths (confirmed on the real crate):
+   `5.e` (field e of field 5) is rejected — a dangling exponent is a hard failure of the number reader — while `5.f` is
+   accepted; `5.* .5` (field 5, wildcard, field 5) is read as the predicate 5.0 * 0.5; the empty text is the empty path *)
+Example C09_unrooted_forms_read_as_expressions :
+  parse_json_path [53; 46; 101] = Err EOther /\
+  parse_json_path [53; 46; 102] = Ok [PDotField [53]; PDotField [102]] /\
+  parse_json_path [53; 46; 42; 32; 46; 53]
+    = Ok [PPredicate (EArithB BMul (EValue (PVNum (NFloat 4617315517961601024))) (EValue (PVNum (NFloat 4602678819172646912))))] /\
+  parse_json_path [] = Ok [].
+Proof. vm_compute. repeat split; reflexivity. Qed.
+
+(* soundness (what the parser accepts is in the grammar) is proved so far for one step other than an index list: what
+   inner_path reads as  .*  [*]  .name  ."name"  :name  :"name"  ["name"]  is a step of the grammar with that meaning.
+   Not proved: index lists, expressions, whole paths (for these only the shape of the result is proved, C09_parser_image). *)
+Theorem C09_accepted_steps_are_in_the_grammar_partial :
+  forall bs r p, inner_path bs = POk r p -> (forall l, p <> PIndices l) -> exists t, bs = t ++ r /\ step_text t p.
+Proof. exact inner_path_sound_partial. Qed.
+Print Assumptions C09_accepted_steps_are_in_the_grammar_partial.
